@@ -55,7 +55,9 @@ Record trans := mkT { t_trig : str; t_label : option str; t_src : name; t_dst : 
 
 (* o_enum: the states are Enum members (flat machines); machine.initial is then the member's
    name while the model state is the member itself *)
-Record opts := mkO { o_conds : bool; o_auto : bool; o_attrs : bool; o_nested : bool; o_enum : bool }.
+(* o_mauto: the machine's own option auto_transitions (to_<state> events exist) *)
+Record opts := mkO { o_conds : bool; o_auto : bool; o_attrs : bool; o_nested : bool; o_enum : bool;
+                     o_mauto : bool }.
 
 (* m_acts: callbacks (by name) that fire a follow-up event on the model, `model.trigger(event)`, while the
    shared counter of the current top-level call (m_budget at its start) is positive; every other callback
@@ -177,7 +179,7 @@ Definition auto_trans (forest : list stree) : list trans :=
 
 (* transitions of the markup as the graph sees them *)
 Definition shown (m : machine) : list trans :=
-  (if o_auto (m_opts m) then auto_trans (m_states m) else []) ++ m_trans m.
+  (if o_auto (m_opts m) && o_mauto (m_opts m) then auto_trans (m_states m) else []) ++ m_trans m.
 Definition elements (m : machine) : list trans := shown m ++ ini_trans (m_states m).
 
 (* ---------------------------------------------------------------- edges *)
@@ -314,7 +316,8 @@ Definition conds_ok (t : trans) : bool :=
   forallb (fun c => snd c) (t_conds t) && forallb (fun c => negb (snd c)) (t_unless t).
 
 (* the transitions the machine holds: user transitions and the auto transitions *)
-Definition held (m : machine) : list trans := auto_trans (m_states m) ++ m_trans m.
+Definition held (m : machine) : list trans :=
+  (if o_mauto (m_opts m) then auto_trans (m_states m) else []) ++ m_trans m.
 
 (* first transition of the event whose checks pass, looked up for the active leaf first and
    then for each of its ancestors (NestedEvent.trigger_nested on a single active branch;
@@ -336,6 +339,7 @@ Record dstate := mkD { d_m : machine; d_cur : list name; d_sty : styles;
 Inductive op :=
 | Ev (e : str)                                   (* model.trigger(e) *)
 | AddState (s : stree)                           (* machine.add_states(s) at top level *)
+| AddStates (l : list stree)                     (* machine.add_states([s1, s2, ...]) in one call *)
 | AddTrans (t : trans)                           (* machine.add_transition(...) *)
 | RemTrans (e : str) (src dst : option name).    (* machine.remove_transition(e, src or '*', dst or '*') *)
 
@@ -359,6 +363,7 @@ Definition apply_op (m : machine) (o : op) : machine :=
   match o with
   | Ev _ => m
   | AddState s => with_states m (m_states m ++ [s])
+  | AddStates l => with_states m (m_states m ++ l)
   | AddTrans t => with_trans m (m_trans m ++ [t])
   | RemTrans e s d => with_trans m (filter (fun t => negb (removed e s d t)) (m_trans m))
   end.
@@ -500,7 +505,7 @@ Fixpoint inert_tree (cfg : list (str * str) * list str) (s : stree) : bool :=
   end.
 Definition exit_inert (m : machine) : bool := forallb (inert_tree (cbcfg m)) (m_states m).
 Definition op_inert (cfg : list (str * str) * list str) (o : op) : bool :=
-  match o with AddState s => inert_tree cfg s | _ => true end.
+  match o with AddState s => inert_tree cfg s | AddStates l => forallb (inert_tree cfg) l | _ => true end.
 
 (* labels of all transitions from s to d, in order *)
 Definition labels_for (o : opts) (ts : list trans) (s d : name) : list str :=
